@@ -1,6 +1,6 @@
 CONSTANTS
   Dev = {}
-  CatN = 24
+  CatN = 20
   RouteN = 1
   MaxDepth = 4
 INIT GenInit
